@@ -71,6 +71,10 @@ func (c *dupOptionChecker) getVariadicArgs(call *ast.CallExpr) ([]ast.Expr, type
 	}
 
 	last := sign.Params().Len() - 1
+	if len(call.Args) < last {
+		// f(g()) forwards the results of g: there are no separate variadic arguments.
+		return nil, nil
+	}
 	sliceType, ok := sign.Params().At(last).Type().(*types.Slice)
 	if !ok {
 		return nil, nil
